@@ -5,6 +5,7 @@ pub mod findings;
 pub mod fl;
 pub mod gen;
 pub mod model;
+pub mod num;
 pub mod props;
 pub mod runner;
 
